@@ -16,3 +16,11 @@ func vecExtra(*ref.Content) func(string, segment.Segment) string { return nil }
 func prepareVecBatch(b interface{}) {}
 
 func vecMergeOracle(seg segment.Segment, exp *ref.Content) string { return "" }
+
+func vecCancelInputs() []faultInput { return nil }
+
+func hookEngine(f func()) func() { return func() {} }
+
+func engineLive() int { return 0 }
+
+func vecMergeOracleFile(path string, exp *ref.Content) string { return "" }
